@@ -194,3 +194,49 @@ def _jsonable(x):
     if isinstance(x, (int, float, str, bool)) or x is None:
         return x
     return repr(x)
+
+
+class FilteredCheck(object):
+    """View of a Check used when one property's check borrows a rule that lives in another property's module: only
+    the obligations whose key satisfies `accept` are forwarded (passes and failures alike); counters are prefixed so that
+    the borrowing check keeps its own floors.  Fail-closed reports (UNDECIDED) of the borrowed rule are always forwarded."""
+
+    def __init__(self, chk, accept, tag):
+        self._c, self._accept, self._tag = chk, accept, tag
+        self.tier, self.seed, self.pid = chk.tier, chk.seed, chk.pid
+        self.forwarded = 0
+
+    def rule(self, name, text):
+        pass
+
+    def count(self, name, n=1):
+        self._c.count("%s:%s" % (self._tag, name), n)
+
+    def floor(self, name, minimum):
+        self._c.floor("%s:%s" % (self._tag, name), minimum)
+
+    def ok(self, n=1):
+        pass
+
+    def fail(self, key, msg, detail=None):
+        if self._accept(key):
+            self.forwarded += 1
+            self._c.fail(key, msg, detail)
+
+    def check(self, cond, key, msg, detail=None):
+        if self._accept(key):
+            self.forwarded += 1
+            self._c.check(cond, key, msg, detail)
+
+    def undecided_(self, key, msg, detail=None):
+        self._c.undecided_(key, msg, detail)
+
+    def open_(self, key, msg):
+        if self._accept(key):
+            self._c.open_(key, msg)
+
+    def sample(self, s):
+        pass
+
+    def observe(self, text):
+        pass
